@@ -466,6 +466,8 @@ struct Chain<'g> {
     idx: usize,
     cnt: usize,
     items: Vec<Val>,
+    /// context and bounds set up by the make_iter of a context-provider link
+    inner: Option<(Env, Bounds)>,
 }
 impl<'g> Chain<'g> {
     fn start(&mut self, p: &mut usize, w: &mut World) -> Result<(), ()> {
@@ -475,6 +477,19 @@ impl<'g> Chain<'g> {
             let (e, v) = eval(a, *p, self.env, w).ok_or(())?;
             *p = e;
             self.items = items_of(v);
+        }
+        if let Some(Part::Ctx(kind, a, _)) = self.parts.get(self.idx) {
+            // make_iter of a context provider parses the provider, once, where the link starts
+            let (e, v) = eval(a, *p, self.env, w).ok_or(())?;
+            *p = e;
+            let cx = ctx_of(&v);
+            let n = count_u8(cx);
+            let bd = match kind % 3 {
+                0 => Bounds::STAR,
+                1 => Bounds::new(0, Some(n)),
+                _ => Bounds::new(n, Some(n)),
+            };
+            self.inner = Some((self.env.with_ctx(cx), bd));
         }
         Ok(())
     }
@@ -509,6 +524,10 @@ impl<'g> ItM for Chain<'g> {
                     }
                 }
                 Part::Iter(_) => self.items.get(self.cnt).cloned(),
+                Part::Ctx(_, _, item) => {
+                    let (env, bd) = self.inner.expect("model: next before make_iter");
+                    rep_next(item, &bd, self.cnt, p, env, w)?
+                }
             };
             match r {
                 Some(v) => {
@@ -948,6 +967,17 @@ fn eval0(g: &G, pos: usize, env: Env, w: &mut World) -> R {
                 None
             }
         }
+        StGuard(a) => {
+            let (e, v) = eval(a, pos, env, w)?;
+            // the state a closure sees is the fold over the tokens before the cursor (of the current with_state scope)
+            if w.state.0 % 2 == 0 {
+                Some((e, v))
+            } else {
+                let err = w.custom_err(e, (pos, e), "SG");
+                w.add_err(err);
+                None
+            }
+        }
         OrNot(a) => {
             let m = w.mark();
             match eval(a, pos, env, w) {
@@ -1047,12 +1077,12 @@ fn eval0(g: &G, pos: usize, env: Env, w: &mut World) -> R {
         }
         Rep(item, bd, sink) => run_sink(sink, pos, env, w, &mut by(|n, p, w| rep_next(item, bd, n, p, env, w))),
         RepCtx(item) => {
-            let n = count_of(env.ctx) as u8;
+            let n = count_u8(env.ctx);
             let bd = Bounds::new(n, Some(n));
             run_sink(&Sink::Vec, pos, env, w, &mut by(|k, p, w| rep_next(item, &bd, k, p, env, w)))
         }
         RepCtxMax(item) => {
-            let n = count_of(env.ctx) as u8;
+            let n = count_u8(env.ctx);
             let bd = Bounds::new(0, Some(n));
             run_sink(&Sink::Vec, pos, env, w, &mut by(|k, p, w| rep_next(item, &bd, k, p, env, w)))
         }
@@ -1062,7 +1092,7 @@ fn eval0(g: &G, pos: usize, env: Env, w: &mut World) -> R {
                 w.add_err(err);
                 return None;
             }
-            let n = count_of(env.ctx) as u8;
+            let n = count_u8(env.ctx);
             let bd = Bounds::new(n, Some(n));
             run_sink(&Sink::Vec, pos, env, w, &mut by(|k, p, w| rep_next(item, &bd, k, p, env, w)))
         }
@@ -1072,13 +1102,13 @@ fn eval0(g: &G, pos: usize, env: Env, w: &mut World) -> R {
                 w.add_err(err);
                 return None;
             }
-            let n = count_of(env.ctx) as u8;
+            let n = count_u8(env.ctx);
             let bd = if *kind % 3 == 1 { Bounds::new(0, Some(n)) } else { Bounds::new(n, Some(n)) };
             let sink = if *kind < 3 { Sink::Bare } else { Sink::Count };
             run_sink(&sink, pos, env, w, &mut by(|k, p, w| rep_next(item, &bd, k, p, env, w)))
         }
         RepCtxPre(item, st, kind) => {
-            let n = count_of(env.ctx) as u8;
+            let n = count_u8(env.ctx);
             let (mn, mx) = pre_effective(st, *kind, n);
             if let Some(m) = mx {
                 if mn > m {
@@ -1125,7 +1155,7 @@ fn eval0(g: &G, pos: usize, env: Env, w: &mut World) -> R {
                     let (e, v) = eval(self.a, *p, self.env, w).ok_or(())?;
                     *p = e;
                     let cx = ctx_of(&v);
-                    let n = count_of(cx) as u8;
+                    let n = count_u8(cx);
                     let bd = match self.kind % 3 {
                         0 => Bounds::STAR,
                         1 => Bounds::new(0, Some(n)),
@@ -1143,7 +1173,7 @@ fn eval0(g: &G, pos: usize, env: Env, w: &mut World) -> R {
             run_sink(sink, pos, env, w, &mut it)
         }
         IterChain(parts, sink) => {
-            let mut ch = Chain { parts, env, idx: 0, cnt: 0, items: vec![] };
+            let mut ch = Chain { parts, env, idx: 0, cnt: 0, items: vec![], inner: None };
             run_sink(sink, pos, env, w, &mut ch)
         }
         SepBy(item, sep, bd, lead, trail, sink) => {
